@@ -486,6 +486,15 @@ func (c *Conn) loadSession(hello *clientHelloMsg) (
 			return nil, nil, nil, nil
 		}
 
+		// [UTLS SECTION START]
+		// A session negotiated with extended_master_secret must not be offered
+		// in a hello without the extension: the server has to abort such a
+		// handshake (RFC 7627, Section 5.3).
+		if session.extMasterSecret && !hello.extendedMasterSecret {
+			return nil, nil, nil, nil
+		}
+		// [UTLS SECTION END]
+
 		hello.sessionTicket = session.ticket
 		return
 	}
